@@ -8,11 +8,12 @@ import pandas as pd
 
 from .. import lib, record, runner, tlc
 
-NUMVAL = {1: 1, 2: 2, 5: 1.5}
+NUMVAL = {1: 1, 2: 2, 3: 0, 4: 1e16, 5: 1.5, 6: -0.0, 7: -3}
 STRVAL = {31: 'a', 32: '7'}
 
 
-def cell_code(v):
+def cell_code(v, k, ctype):
+    """Code of an observed cell at a position whose input value was k (see spec/Converter.tla)."""
     if v is None or (isinstance(v, (float, np.floating)) and math.isnan(v)):
         return 0
     try:
@@ -21,13 +22,21 @@ def cell_code(v):
     except (TypeError, ValueError):
         pass
     if isinstance(v, str):
-        table = {'1': 11, '2': 12, str(1.0): 21, str(2.0): 22, str(1.5): 25, 'a': 31, '7': 32}
-        return table.get(v, 99)
+        if ctype in ('object', 'str'):
+            return {'a': 31, '7': 32}.get(v, 999)
+        if k in NUMVAL:
+            num = NUMVAL[k]
+            if v == str(int(num)):
+                return 100 + k
+            if v == str(float(num)):
+                return 200 + k
+        return 999
     if isinstance(v, (bool, np.bool_)):
-        return 99
-    if isinstance(v, (int, float, np.integer, np.floating)):
-        return {1.0: 41, 2.0: 42, 1.5: 45}.get(float(v), 99)
-    return 99
+        return 999
+    if isinstance(v, (int, float, np.integer, np.floating)) and k in NUMVAL:
+        same = float(v) == float(NUMVAL[k]) and math.copysign(1, float(v)) == math.copysign(1, float(NUMVAL[k]))
+        return 400 + k if same else 999
+    return 999
 
 
 def make_series(ctype, vals, labels):
@@ -43,8 +52,13 @@ def make_series(ctype, vals, labels):
     return s
 
 
-def cells(series, labcode):
-    return [[labcode.get(l, 999), cell_code(v)] for l, v in zip(series.index.tolist(), series.tolist())]
+def cells(series, labcode, vals, ctype):
+    out = []
+    for l, v in zip(series.index.tolist(), series.tolist()):
+        pos = labcode.get(l, 0)
+        k = vals[pos - 1] if 1 <= pos <= len(vals) else -1
+        out.append([labcode.get(l, 999), cell_code(v, k, ctype)])
+    return out
 
 
 def run_conv(item):
@@ -91,12 +105,12 @@ def run_conv(item):
     elif ret is True:
         retc = ['true', []]
     elif isinstance(ret, pd.Series):
-        retc = ['series', cells(ret, labcode)]
+        retc = ['series', cells(ret, labcode, gen['vals'], gen['ctype'])]
     elif isinstance(ret, pd.DataFrame) and 'c' in ret.columns:
-        retc = ['frame', cells(ret['c'], labcode)]
+        retc = ['frame', cells(ret['c'], labcode, gen['vals'], gen['ctype'])]
     else:
         retc = ['other', []]
-    rec['obs'] = {'raised': raised, 'ret': retc, 'after': cells(after, labcode), 'others': others, 'aliased': aliased}
+    rec['obs'] = {'raised': raised, 'ret': retc, 'after': cells(after, labcode, gen['vals'], gen['ctype']), 'others': others, 'aliased': aliased}
     return rec
 
 
@@ -140,10 +154,13 @@ def build_column(kind, col, variant):
         return pd.Series([pd.NA if v == 0 else (v == 1) for v in seq], dtype='boolean')
     if variant == 'int' and 0 not in seq:
         return pd.Series(seq, dtype='int64')
+    if variant == 'category':
+        cats = sorted({'v%d' % v for v in seq if v != 0}) + ['unused-category']
+        return pd.Series(pd.Categorical([None if v == 0 else 'v%d' % v for v in seq], categories=cats))
     return pd.Series([None if v == 0 else 'v%d' % v for v in seq], dtype=object)
 
 
-VARIANTS = ['object', 'float', 'Int64', 'str', 'mixedobj', 'boolean', 'int']
+VARIANTS = ['object', 'float', 'Int64', 'str', 'mixedobj', 'boolean', 'int', 'category']
 
 
 def run_prof(item):
@@ -226,7 +243,7 @@ def run(tier, seed):
     if len(cg) != cres.distinct or len(pg) != pres.distinct or not cg or not pg:
         raise runner.MachineryError('E8: GEN records do not match the initial states')
     citems = [(j + 1, g) for j, g in enumerate(cg)]
-    reps = 7 if tier == 'quick' else 7
+    reps = len(VARIANTS)
     pitems = []
     for g in pg:
         for v in range(reps if g['kind'] == 'small' else 4):
